@@ -66,13 +66,37 @@ def nameOk (n : Option Bytes) : Bool :=
     | some b => !b.contains 0 && sjisSub.dec b == s
     | none => false
 
-def inDomain (f : ASetFile) : Bool :=
-  decide (Spec.Aset.WF f.animClipTable f.sets) && nameOk f.metaStr && f.animClipTable.all nameOk
-    && f.sets.all (fun s => s.all nameOk)
+/-- Does `pat` occur in `s`? -/
+def hasInfix (pat : Bytes) : Bytes → Bool
+  | [] => pat.isEmpty
+  | b :: rest => pat.isPrefixOf (b :: rest) || hasInfix pat rest
+
+/-- The three code points Shift-JIS encodes *lossily* (U+00A5 → 0x5C, U+203E → 0x7E,
+U+2212 → U+FF0D), in UTF-8.  Strings containing them are outside the property's quantifier
+("Shift-JIS-representable"), and the sub-codec model cannot predict their bytes. -/
+def lossyName (n : Option Bytes) : Bool :=
+  match n with
+  | none => false
+  | some s => hasInfix [0xC2, 0xA5] s || hasInfix [0xE2, 0x80, 0xBE] s || hasInfix [0xE2, 0x88, 0x92] s
+
+def allNames (f : ASetFile) : List (Option Bytes) :=
+  f.metaStr :: f.animClipTable ++ f.sets.flatMap id
+
+/-- Shape of the property's domain (257 clip names, 257-entry sets). -/
+def shapeOk (f : ASetFile) : Bool := decide (Spec.Aset.WF f.animClipTable f.sets)
+
+/-- Every string lies in the codec's lossless domain. -/
+def namesOk (f : ASetFile) : Bool := (allNames f).all nameOk
+
+def lossy (f : ASetFile) : Bool := (allNames f).any lossyName
 
 /-- The specification judged on the implementation's output line (independent of the model). -/
 def oracle (f : ASetFile) (i : List String) : String :=
-  if !inDomain f then "ok skip out-of-domain" else
+  if !shapeOk f then "ok skip out-of-domain" else
+  if lossy f then "ok skip lossy-codepoint" else
+  -- a string the codec cannot represent: refusing to serialise is fine; but whatever `serialize`
+  -- accepts must be re-read exactly (the clauses below)
+  if !namesOk f && i.getD 1 "" == "err" then "ok refused" else
   match i with
   | [_, "ok", size, bytes, "rr-ok", value, re] =>
     let expect := Spec.Aset.dataSize f.sets
@@ -92,7 +116,10 @@ def family : Family where
   init := ()
   step := fun _ c i =>
     match fileOf c with
-    | some f => ((), modelOut f, oracle f i)
+    | some f =>
+      -- lossily encodable code points: the sub-codec cannot predict the bytes — correspondence skip
+      let m := if lossy f then " ".intercalate (i.drop 1) else modelOut f
+      ((), m, oracle f i)
     | none => ((), "bad-case", "FAIL bad-case")
 
 end Driver.Aset
